@@ -961,6 +961,24 @@ void gen_longcmp(int fi) {
     }
 }
 
+/* searches in long haystacks (a library may hand long operands to another routine): the haystack is the prior-string pattern pqrstuvw... of
+ * 200..300 characters, the needle one of its substrings, in either case, followed by a character that does not continue the match and cut off by slen */
+void gen_longsearch(int fi) {
+    const Fn *f = &fntab[fi];
+    if (strcmp(f->name, "strstr_s") && strcmp(f->name, "strcasestr_s") && strcmp(f->name, "wcsstr_s")) return;
+    static const int DL[] = { 200, 255, 256, 257, 300 };
+    static const char *ND[] = { "stuvX", "STUVx", "wpqrX", "stuv", "pqrstuvwpX" };
+    Case c;
+    for (int di = 0; di < 5; di++) for (int extra = 0; extra < 2; extra++) for (int ni = 0; ni < 5; ni++) for (int cut = 0; cut < 2; cut++) for (int place = 0; place < 2; place++) {
+        int nl = strlen(ND[ni]);
+        memset(&c, 0, sizeof c);
+        c.fn = fi; c.place = place; c.dmax = DL[di] + 1 + 2 * extra; c.d_obj = c.dmax; c.d_pk = 1; c.d_pl = DL[di];
+        c.s_k = 2; memcpy(c.sx, ND[ni], nl + 1); c.sxn = nl + 1; c.s_len = nl; c.s_term = 1; c.s_obj = nl + 1;
+        c.slen = cut ? nl - 1 : nl + 1;
+        emit(&c);
+    }
+}
+
 /* element comparisons around the sign bit: every pair of element values over {1, 0x7f.., 0x80.., 0xc0.., 0xff..} at every position of
  * operands of 1..3 elements (the wide-character compare orders them as signed wchar_t, the 16/32-bit ones as unsigned) */
 void gen_signcmp(int fi) {
@@ -1031,6 +1049,7 @@ int main(int argc, char **argv) {
         if (P == 1 || P == 2 || P == 6 || P == 12) gen_prims(i);
         if (P == 10 || P == 2) gen_longcmp(i);
         if (P == 10) gen_signcmp(i);
+        if (P == 10 || P == 2) gen_longsearch(i);
         if (P == 10 || P == 1 || P == 2 || P == 5) gen_foldcmp(i);
         printf("{\"t\":\"fn\",\"fn\":\"%s\",\"evaluations\":%ld}\n", fntab[i].name, n_eval - e0);
     }
